@@ -139,6 +139,8 @@ def declare_remote_exec(w):
     def isinstance_ref(ex, v, names):
         if v.ty.cls == "Function":
             return z3.And(v.v != 0, z3.BoolVal("types.FunctionType" in names))
+        if v.ty.cls == "PyModule":
+            return z3.And(v.v != 0, z3.BoolVal("types.ModuleType" in names))
         return None
 
     w.call_hooks[("isinstance", "ref")] = isinstance_ref
@@ -191,6 +193,75 @@ def declare_remote_exec(w):
                           Case("unserialisable-kwargs", "raise", "DumpError", post=nothing_sent),
                           Case("connection-closed", "raise", "OSError", post=nothing_sent)],
                    modifies=REMOD, props=["C06"], allocates=True), variant="function")
+
+    # source is a module: the text that is sent is the CURRENT content of its file, also when an older version of that file was run before.
+    # linecache (ghost object LC, one per process): text cached per file name, and whether the cached size/mtime still equal the file's
+    s.set_bases("PyModule", ["object"])
+    s.set_bases("LineCache", ["object"])
+    s.declare("PyModule", "$sourcefile", STR, ghost=True)
+    s.declare("LineCache", "$cached", MAP(STR, STR), ghost=True)        # file name -> text held by linecache (present = there is an entry)
+    s.declare("LineCache", "$statsame", MAP(STR, BOOL), ghost=True)     # the entry's recorded size and mtime equal those of the file now
+    s.declare("LineCache", "$file", MAP(STR, STR), ghost=True)          # the file's content now
+    LC = SV(REF("LineCache"), z3.IntVal(1))
+    lc = lambda h, f: h.sv("LineCache", z3.IntVal(1), f)
+    cached_p = lambda h, fn: z3.Select(lc(h, "$cached").v[0], fn)
+    cached_t = lambda h, fn: z3.Select(lc(h, "$cached").v[1][0], fn)
+    statsame = lambda h, fn: z3.Select(lc(h, "$statsame").v[1][0], fn)
+    filetext = lambda h, fn: z3.Select(lc(h, "$file").v[1][0], fn)
+
+    def lc_set(ex, st, present_fn, text_fn):
+        m = st.heap.get(LC, "$cached")
+        ex.set_field(st, LC, "$cached", SV(m.ty, (present_fn(m.v[0]), [text_fn(m.v[1][0])])))
+
+    def updatecache(ex, args, kwargs, st, sink, node):
+        fn = core.coerce(args[0], STR).v
+        from pyvc.contracts import HeapView
+        hv = HeapView(st.heap, st.held)
+        ft = filetext(hv, fn)
+        lc_set(ex, st, lambda p: z3.Store(p, fn, True), lambda t: z3.Store(t, fn, ft))      # re-reads the file unconditionally
+        ss = st.heap.get(LC, "$statsame")
+        ex.set_field(st, LC, "$statsame", SV(ss.ty, (ss.v[0], [z3.Store(ss.v[1][0], fn, True)])))
+        yield st, core.fresh(ANY, "lines")
+
+    def checkcache(ex, args, kwargs, st, sink, node):
+        fn = core.coerce(args[0], STR).v
+        from pyvc.contracts import HeapView
+        hv = HeapView(st.heap, st.held)
+        same = statsame(hv, fn)
+        lc_set(ex, st, lambda p: z3.Store(p, fn, z3.And(z3.Select(p, fn), same)), lambda t: t)   # drops the entry only when size or mtime changed
+        yield st, NONEV
+
+    def getsource_any(ex, args, kwargs, st, sink, node):
+        v = args[0]
+        if v.ty.kind == "ref" and v.ty.cls == "PyModule":
+            from pyvc.contracts import HeapView
+            hv = HeapView(st.heap, st.held)
+            fn = st.heap.get(v, "$sourcefile").v
+            # inspect.getsource -> linecache.getlines: checkcache first, then the cached text if there still is an entry, else the file
+            use_cache = z3.And(cached_p(hv, fn), statsame(hv, fn))
+            yield st, SV(STR, z3.If(use_cache, cached_t(hv, fn), filetext(hv, fn)))
+            return
+        yield from getsource(ex, args, kwargs, st, sink, node)
+
+    getsource = w.externals["inspect.getsource"]
+    w.externals["inspect.getsource"] = getsource_any
+    old_gsf = w.externals["inspect.getsourcefile"]
+    w.externals["inspect.getsourcefile"] = lambda ex, args, kwargs, st, sink, node: (iter([(st, SV(STR, st.heap.get(args[0], "$sourcefile").v))]) if args[0].ty.kind == "ref" and args[0].ty.cls == "PyModule"
+                                                                                     else old_gsf(ex, args, kwargs, st, sink, node))
+    w.externals["linecache.updatecache"] = updatecache
+    w.externals["linecache.checkcache"] = checkcache
+
+    def mod_payload(a, h):
+        fn = h("PyModule", a.source, "$sourcefile")
+        return enc_item(task2u(filetext(h, fn), z3.BoolVal(False), fn, z3.BoolVal(True), z3.StringVal(""), a.kwargs))
+
+    w.add(Contract(f"{GW}:Gateway.remote_exec", {"self": REF("Gateway"), "source": REF("PyModule")},
+                   requires=lambda a, h: [("module-not-none", a.source != 0)],
+                   cases=[Case("sent", restype=REF("Channel"), when=lambda a, h: z3.Not(truthy_any(a.kwargs)), post=lambda a, h, h2, r: sent_one(a, h, h2, r, mod_payload(a, h))),
+                          Case("kwargs-without-function", "raise", "TypeError", when=lambda a, h: truthy_any(a.kwargs), post=nothing_sent),
+                          Case("unserialisable", "raise", "DumpError", post=nothing_sent),
+                          Case("connection-closed", "raise", "OSError", post=nothing_sent)],
+                   modifies=lambda a, h: REMOD(a, h) + [("LineCache", z3.IntVal(1), "$cached"), ("LineCache", z3.IntVal(1), "$statsame")], props=["C06"], allocates=True), variant="module")
     return w
 
 
